@@ -96,8 +96,11 @@ AUTO_EXT = [('.c', 'source'), ('.h', 'header'), ('.dat', 'file'), ('/', 'dir'), 
 class Gen:
     """Generates one project: scripts {dir: [stmt]}, the file tree, and what the generator knows about each path."""
 
-    def __init__(self, rng, size=1.0, special_rate=0.25, regen=False):
+    def __init__(self, rng, size=1.0, special_rate=0.25, regen=False, sysonly=False):
         self.rng = rng
+        self.sysonly = sysonly   # also shapes the script model does not cover (system stage only)
+        self.outside = []        # files next to the source directory (named by absolute-path strings)
+        self.absin = []          # srcdir files that some edge names by an absolute-path string
         self.names = Names(rng, special_rate)
         self.size = size
         self.tree = {}          # relpath -> content (files to create); directories as key ending in '/'
@@ -292,20 +295,35 @@ class Gen:
         return {'op': 'extra_dist', 'files': files, 'dirs': dirs}
 
     def dep_args(self, d, n=None):
+        """Extra dependencies of an edge (extra_deps= / extra_compile_deps= / deps= of alias) in every spelling
+        Edge.__init__ accepts: a file object created earlier, a plain string, a srcdir Path object, an absolute-path
+        string naming a file below the source directory, an absolute-path string naming a file outside of it."""
         out = []
         for _ in range(self.rng.randint(0, 2) if n is None else n):
             o = self.pick_obj(('file', 'source', 'header')) if self.rng.random() < 0.3 else None
             if o:
                 out.append(('obj', o[0]))
-            else:
-                # Edge.make resolves extra_deps strings against the srcdir root, not the script directory
-                name = self.names.new('dep', '.txt')
-                if self.rng.random() < 0.15:
-                    name = self.names.new('depdir') + '/'
-                p = self.touch('', name)
-                self.mark(p, True)
-                self.refs.add(p)
-                out.append(('name', name))
+                continue
+            form = self.rng.choice(['name', 'name', 'name', 'spath', 'spath', 'absin', 'absout'])
+            if form == 'absout':
+                # outside the source tree: root = absolute, never a source, never a member
+                name = self.names.new('outdep', '.txt', plain=True)
+                self.outside.append(name)
+                out.append(('absout', name))
+                continue
+            # Edge.make resolves extra_deps strings against the srcdir root, not the script directory
+            name = self.names.new('dep', '.txt')
+            if self.rng.random() < 0.15:
+                name = self.names.new('depdir') + '/'
+            p = self.touch('', name)
+            if form == 'absin':
+                # the script spells the file by its absolute path: root = absolute, written as an absolute path
+                out.append(('absin', name))
+                self.absin.append(p)
+                continue
+            self.mark(p, True)
+            self.refs.add(p)
+            out.append((form, name))
         return out
 
     def inc_args(self, d):
@@ -400,6 +418,9 @@ class Gen:
             pch = None
         st = {'op': 'link', 'kind': kind, 'files': files, 'includes': self.inc_args(d) if compiles else [], 'libs': libs,
               'pch': pch, 'deps': self.dep_args(d), 'label': lab}
+        if self.sysonly and compiles and self.rng.random() < 0.35:
+            # dependencies of every compile step of the link (not in the script model: system stage only)
+            st['cdeps'] = self.dep_args(d, n=self.rng.randint(1, 2))
         self.objs.append((lab, {'executable': 'exe', 'shared_library': 'libsh', 'static_library': 'libst',
                                 'library': 'libany'}[kind], 'build'))
         return st
@@ -451,6 +472,12 @@ class Gen:
         return pre + [{'op': 'command', 'step': step, 'nodes': nodes, 'files': files,
                        'deps': deps, 'label': lab, 'out': self.names.new('gen', '.c', plain=True)}]
 
+    def st_alias(self, d):
+        lab = self.lab()
+        deps = self.dep_args(d, n=self.rng.randint(1, 3))
+        self.objs.append((lab, 'phony', 'build'))
+        return {'op': 'aliasdeps', 'deps': deps, 'label': lab, 'name': self.names.new('al', plain=True)}
+
     def st_misc(self, d):
         o = self.pick_obj(('exe', 'libsh', 'libst', 'header', 'hdrdir', 'dir', 'man', 'file'))
         if not o:
@@ -463,7 +490,7 @@ class Gen:
         return {'op': 'misc', 'fn': op, 'arg': ('obj', o[0]), 'name': self.names.new('al', plain=True)}
 
     MENU = [('st_file', 8), ('st_find', 3), ('st_dirinc', 2), ('st_extra_dist', 1), ('st_object', 2), ('st_objects', 1),
-            ('st_pch', 1), ('st_link', 4), ('st_copy', 2), ('st_manz', 1), ('st_command', 2), ('st_misc', 2)]
+            ('st_pch', 1), ('st_link', 4), ('st_copy', 2), ('st_manz', 1), ('st_command', 2), ('st_misc', 2), ('st_alias', 1)]
 
     def gen_script(self, d, depth, force=None):
         stmts = []
@@ -630,6 +657,10 @@ def r_arg(a, d):
         return 'Path(%r, Root.builddir)' % v
     if t == 'apath':
         return 'Path(%r, Root.absolute)' % v
+    if t == 'absin':         # an absolute-path STRING naming a file below the source directory
+        return "env.srcdir.string() + %r" % ('/' + v)
+    if t == 'absout':        # an absolute-path STRING naming a file next to the source directory
+        return "env.srcdir.parent().string() + %r" % ('/c18_outside/' + v)
     if t == 'obj':
         return 'N[%d]' % v
     if t == 'objs':
@@ -724,6 +755,8 @@ def render_stmt(st, d):
             kw.append('pch=' + r_arg(st['pch'], d))
         if st['deps']:
             kw.append('extra_deps=' + r_list(st['deps'], d))
+        if st.get('cdeps'):
+            kw.append('extra_compile_deps=' + r_list(st['cdeps'], d))
         return 'N[%d] = %s(%s)' % (st['label'], st['kind'], ', '.join(kw))
     if op == 'copy':
         kw = []
@@ -750,6 +783,8 @@ def render_stmt(st, d):
                 [repr(st['out']), 'cmd=[%s]' % ', '.join(cmd + ["'-o'", 'build_step.output'])] + kw))
         return 'N[%d] = command(%s)' % (st['label'], ', '.join(
             ['%r' % ('cmd%d' % st['label']), 'cmd=[%s]' % ', '.join(cmd)] + kw))
+    if op == 'aliasdeps':
+        return 'N[%d] = alias(%r, deps=%s)' % (st['label'], st['name'], r_list(st['deps'], d))
     if op == 'misc':
         if st['fn'] == 'alias':
             return 'alias(%r, [%s])' % (st['name'], r_arg(st['arg'], d))
@@ -800,6 +835,8 @@ class Replayed:
                 'cache': True, 'dist': True, 'deep': [], 'forced': 'extra',
                 'names': sorted(k[len(fd) + 1:] for k in files if k.startswith(fd + '/') and '/' not in k[len(fd) + 1:])}]
         self.history = r.get('history')
+        self.outside = r.get('outside', [])
+        self.absin = r.get('absin', [])
         self.hseed = r.get('hseed', 0)
         m = re.search(r"project\('proj', version='([^']*)'\)", files.get('build.bfg', ''))
         self.version = m.group(1) if m else None
@@ -1072,6 +1109,8 @@ def check_project(rep, g, tag, regen=False):
     with project.Scratch('c18') as s:
         src = s.src
         write_project(src, g)
+        for name in getattr(g, 'outside', []):        # files NEXT TO the source directory that the scripts name
+            project.write_tree(os.path.join(s.root, 'c18_outside'), {name: 'outside the source tree\n'})
         snap = project.snapshot(src)
         henv, log = hooked_env(s.root, src)
         rc, out = project.configure(src, s.build, extra_env=henv)
@@ -1119,6 +1158,14 @@ def check_project(rep, g, tag, regen=False):
             if not present(p):
                 fail('file read from srcdir is not in the archive', p,
                      ('opened-non-script',) if (p in opened and p not in refs and p not in scripts) else ())
+        # (1b) a file below the source directory that an edge names by an absolute-path STRING: the build file mentions it
+        # by that absolute path (no $(srcdir)), so the decoder above does not see it - it is a file below srcdir that the
+        # build file references all the same
+        for p in sorted(set(getattr(g, 'absin', []))):
+            q = p.rstrip('/')
+            if (os.path.join(src, q) + ' ') in mk.replace('\n', ' \n') and not present(q):
+                fail('file below the source directory that the build file references by its absolute path is not in the archive',
+                     q, ('abs-string-dependency-below-srcdir',))
         # (2) dist=False only -> absent
         for p in sorted(g.nodist - g.withdist):
             if p in members:
@@ -1201,7 +1248,9 @@ def check_project(rep, g, tag, regen=False):
             fail('the unpacked archive does not configure', out[-1200:])
         else:
             mk2 = project.read(ubuild, 'Makefile')
-            a, b = norm_makefile(mk, src, s.build), norm_makefile(mk2, usrc, ubuild)
+            # (the scripts name the files next to the source directory relative to wherever that directory is)
+            a = norm_makefile(mk.replace(os.path.dirname(src) + '/c18_outside/', '<OUTSIDE>/'), src, s.build)
+            b = norm_makefile(mk2.replace(os.path.dirname(usrc) + '/c18_outside/', '<OUTSIDE>/'), usrc, ubuild)
             if a != b:
                 la, lb = a.split('\n'), b.split('\n')
                 diff = [(x, y) for x, y in zip(la, lb) if x != y][:3]
@@ -1224,7 +1273,7 @@ def report_system(rep, g, what, detail, classes, regen):
                                                  'detail': detail, 'regen': regen, 'regen_find': g.regen_find,
                                                  'sites': g.sites, 'history': g.history, 'hseed': g.hseed,
                                                  'nodist': sorted(g.nodist), 'withdist': sorted(g.withdist),
-                                                 'nodist_dirs': sorted(g.nodist_dirs)},
+                                                 'nodist_dirs': sorted(g.nodist_dirs), 'outside': sorted(g.outside), 'absin': sorted(g.absin)},
              classes=classes, found_input='harness' not in classes)
 
 
@@ -1250,13 +1299,15 @@ def stage_corpus(rep):
 def stage_system(rep, rng, n, regen_n):
     for i in range(n):
         regen = i < regen_n
-        g = Gen(random.Random(rng.getrandbits(48)), size=1.0, regen=regen).generate()
+        g = Gen(random.Random(rng.getrandbits(48)), size=1.0, regen=regen, sysonly=True).generate()
         fails, info = check_project(rep, g, 'sys%d' % i, regen=regen)
         rep.case(project_canon(g), len(g.withdist) >= 3)
         rep.count('system:projects')
         rep.count('system:regen-projects', 1 if regen else 0)
         for st in (s for ss in g.scripts.values() for s in ss):
             rep.count('system:stmt:' + st['op'] + (':' + st['kind'] if st['op'] == 'file' else ''))
+            for a in (st.get('deps') or []) + (st.get('cdeps') or []):
+                rep.count('system:dep-spelling:' + a[0] + (':extra_compile_deps' if a in (st.get('cdeps') or []) else ''))
         rep.traces += 1
         if i < 3:
             rep.sample('system project %d: %d scripts, %d files, members=%s refs=%s opened=%s nodist=%d' % (
@@ -1304,6 +1355,8 @@ class ToModel:
             return [0, m_node('build', v.rstrip('/'))]
         if t == 'apath':
             return [0, m_node('abs', v)]
+        if t in ('absin', 'absout'):
+            return [0, m_node('abs', '<%s>/%s' % (t, v.rstrip('/')))]
         if t == 'at':
             return [1, v]
         return [1, self.idx[v]]
@@ -1399,6 +1452,9 @@ class ToModel:
             elif op == 'command':
                 c = [11, self.args(st['files'], d), [self.idx[a[1]] for a in st['nodes']],
                      self.args(st['deps'], d, dep=True), 'o']
+            elif op == 'aliasdeps':
+                # Alias is an Edge with extra_deps only: a command without files and nodes
+                c = [11, [], [], self.args(st['deps'], d, dep=True), 'o']
             elif op == 'misc':
                 if st['fn'] in ('install', 'alias'):
                     c = [13, self.idx[st['arg'][1]]]
@@ -1599,6 +1655,27 @@ def stage_w(rep, rng, n, fixed, ip):
                                 {'kind': 'find-entry-not-in-dist', 'files': files, 'entry': pth, 'spec': spec, 'run': tag},
                                 classes=('find-cache-hit-extra',) if (tag == 'cache-served' and not inc) else ())
                             direct_fail[0] += 1
+            # direct oracle (independent of the model) on what the real configure_build registered: every srcdir node an
+            # edge consumes (sources, includes, libraries, extra dependencies in whatever spelling the script used) is a
+            # source of the distribution unless the script marked it dist=False, and every source lies in srcdir
+            for tag, obs in (('fresh', o1), ('cache-served', o2)):
+                mem = set(tuple(m) for m in obs['members'])
+                for m in obs['members']:
+                    if m[0] != ROOTS['src']:
+                        rep.fail('a file outside the source directory is registered as a source of the distribution (%s run): %r'
+                                 % (tag, m), {'kind': 'non-srcdir-source', 'files': files, 'entry': m, 'run': tag,
+                                              'outside': sorted(g.outside)}, classes=())
+                        direct_fail[0] += 1
+                for pth in obs['refs']:
+                    if (ROOTS['src'], pth) in mem or pth in g.nodist or any(pth.startswith(x + '/') for x in g.nodist_dirs):
+                        continue
+                    rep.fail('srcdir file %r is consumed by an edge of the build but is no source of the distribution (%s run)'
+                             % (pth, tag), {'kind': 'edge-input-not-in-dist', 'files': files, 'entry': pth, 'run': tag},
+                             classes=('find-cache-hit-extra',) if (tag == 'cache-served' and not fixed) else ())
+                    direct_fail[0] += 1
+            for st in (x for ss in g.scripts.values() for x in ss):
+                for a in (st.get('deps') or []) + (st.get('cdeps') or []):
+                    rep.count('W:dep-spelling:' + a[0])
             for hit, obs, wk in ((False, o1, walks), (True, o2, walks)):
                 tm = ToModel(g, wk, hit)
                 calls.append(('dist_run', [fixed, m_node('src', 'build.bfg'), tm.calls, opts, 'gzip', '.tar.gz',
